@@ -12,6 +12,7 @@
 # output (tab separated): see the handlers.
 
 (use prelude)
+(import ./canon2 :prefix "")
 
 (defn strbytes [n seed]
   (def b (buffer/new n))
@@ -97,9 +98,12 @@
   (array/push out (same o (canon (rt c1))))
   # 4 purely immutable values: the copy is = to the original and hashes the same
   (array/push out (if (in item 3) (string (= x c1) (= (hash x) (hash c1))) "-"))
-  # 5 one registered node at a time: marshal replaces it by a name, unmarshal by :R
+  # 5 one registered node at a time: marshal replaces it by a name, unmarshal by a fresh value of the same type
   (eachp [k obj] objs
-    (def c (unmarshal (marshal x @{obj 'r}) @{'r :R}))
+    (def repl (case (type obj)
+                :array @[:R] :table @{:R 1} :buffer @"R" :struct {:R 1}
+                :tuple (if (= :brackets (tuple/type obj)) (tuple/brackets :R) (tuple :R))))
+    (def c (unmarshal (marshal x @{obj 'r}) @{'r repl}))
     (array/push out (canon c)))
   # 6 marshalling does not change the original
   (array/push out (same o (canon x)))
